@@ -62,6 +62,12 @@ type c05FnRec struct {
 	Steps   []c05FnStep `json:"steps"`
 	Publish string      `json:"publish"` // error class of PublishConnection ("" = ok)
 	Lost    string      `json:"lost"`    // error class answering the final status update
+	// Fault: a call of Compose AFTER the pipeline that fails ("" = none): "refs" the server-side apply
+	// of spec.resourceRefs, "apply" the first apply of a desired composed resource (never class
+	// invalid: that is a rejection, see c05FnRes.Invalid), "statusPatch" the apply of the desired XR
+	// status; FaultErr its class
+	Fault    string `json:"fault"`
+	FaultErr string `json:"faultErr"`
 }
 
 type c05FnScn struct {
@@ -134,7 +140,48 @@ func c05GenFn(r *Rng) c05FnScn {
 		if r.Chance(1, 10) {
 			rec.Lost = Pick(r, c05ErrClasses)
 		}
+		if r.Chance(1, 8) {
+			rec.Fault = Pick(r, []string{"refs", "apply", "apply", "statusPatch"})
+			rec.FaultErr = Pick(r, c05ErrClasses)
+			for rec.Fault == "apply" && rec.FaultErr == "invalid" {
+				rec.FaultErr = Pick(r, c05ErrClasses)
+			}
+		}
 		s.Recs = append(s.Recs, rec)
+	}
+	// a late failure's status update goes through only when the reference apply before it changed
+	// nothing: craft a steady pair - two reconciles of one XR desiring the same, accepted resources,
+	// the second one failing at the apply of a composed resource (or at the reference apply) after its
+	// pipeline returned custom conditions
+	if len(s.Recs) >= 2 && r.Chance(1, 3) {
+		k := r.Range(1, len(s.Recs)-1)
+		s.Recs[k].XR = s.Recs[k-1].XR
+		names := []string{"a", "b", "c", "d"}
+		p := r.Perm(4)
+		res := []c05FnRes{}
+		for j, m := 0, r.Range(1, 3); j < m; j++ {
+			res = append(res, c05FnRes{Name: names[p[j]], Ready: Pick(r, []string{"true", "true", "false", "unspecified"})})
+		}
+		for _, q := range []int{k - 1, k} {
+			for j := range s.Recs[q].Steps {
+				s.Recs[q].Steps[j].Err = false
+				keep := []string{}
+				for _, sev := range s.Recs[q].Steps[j].Results {
+					if sev != "fatal" {
+						keep = append(keep, sev)
+					}
+				}
+				s.Recs[q].Steps[j].Results = keep
+			}
+			last := &s.Recs[q].Steps[len(s.Recs[q].Steps)-1]
+			last.Res = append([]c05FnRes{}, res...)
+		}
+		s.Recs[k-1].Fault, s.Recs[k-1].FaultErr = "", ""
+		s.Recs[k].Fault = Pick(r, []string{"apply", "apply", "refs"})
+		s.Recs[k].FaultErr = Pick(r, []string{"generic", "forbidden", "temporary", "deadline", "notFound", "alreadyExists"})
+		if len(s.Recs[k].Steps[0].Conds) == 0 {
+			s.Recs[k].Steps[0].Conds = append(s.Recs[k].Steps[0].Conds, c05FnCond{Type: Pick(r, []string{"Custom", "DatabaseReady", "NetworkOK"}), Status: "True", Reason: "Fn", Claim: r.Bool()})
+		}
 	}
 	// a function may also write conditions through the desired XR's status: only in the last
 	// reconcile of an XR (what server-side apply later removes again is not modelled)
@@ -249,7 +296,7 @@ func c05NewFnWorld(s c05FnScn) *c05FnWorld {
 		return c == xwInvalidContent
 	}
 	w := &c05FnWorld{st: st}
-	w.cl = &c05Client{Store: st}
+	w.cl = &c05Client{Store: st, StrictRV: true}
 	for _, x := range s.XRs {
 		xr := ucomposite.New(ucomposite.WithGroupVersionKind(c05XRGVK))
 		xr.SetName(x.Name)
@@ -359,9 +406,20 @@ func c05RunFn(s c05FnScn) (c05SeqObs, []Mon) {
 		}
 		w.cur = rec
 		st.Log = nil
+		applies := 0
 		w.cl.Inject = func(c c05Call) error {
-			if c.Kind == c05XRGVK.Kind && c.Verb == "update" && c.Sub == "status" && rec.Lost != "" {
+			switch {
+			case c.Kind == c05XRGVK.Kind && c.Verb == "update" && c.Sub == "status" && rec.Lost != "":
 				return c05MkErr(rec.Lost, false)
+			case c.Kind == c05XRGVK.Kind && c.Verb == "patch" && c.Sub == "" && rec.Fault == "refs":
+				return c05MkErr(rec.FaultErr, false)
+			case c.Kind == c05XRGVK.Kind && c.Verb == "patch" && c.Sub == "status" && rec.Fault == "statusPatch":
+				return c05MkErr(rec.FaultErr, false)
+			case (c.Kind == "KA" || c.Kind == "KB") && c.Verb == "patch" && rec.Fault == "apply":
+				applies++
+				if applies == 1 {
+					return c05MkErr(rec.FaultErr, false)
+				}
 			}
 			return nil
 		}
@@ -393,7 +451,9 @@ func c05RunFn(s c05FnScn) (c05SeqObs, []Mon) {
 		// ---- direct monitors
 		fatal, last := c05FnOutcome(*rec)
 		old := before[name]
-		completed := !fatal && rec.Publish == "" && rec.Lost == ""
+		// Compose fails after the pipeline: the call is reached (and issued)
+		late := !fatal && rec.Fault != "" && (rec.Fault != "apply" || len(last.Res) > 0)
+		completed := !fatal && !late && rec.Publish == "" && rec.Lost == ""
 		if completed {
 			allReady, allSynced := true, true
 			for _, d := range last.Res {
@@ -414,7 +474,7 @@ func c05RunFn(s c05FnScn) (c05SeqObs, []Mon) {
 					if t == "Synced" {
 						sig = "C05:synced-set-on-error"
 					}
-					mon(sig, fmt.Sprintf("reconcile %d: a reconcile that did not complete (fatal %v publish %q lost %q) left %s=True", i, fatal, rec.Publish, rec.Lost, t))
+					mon(sig, fmt.Sprintf("reconcile %d: a reconcile that did not complete (fatal %v fault %q/%q publish %q lost %q) left %s=True", i, fatal, rec.Fault, rec.FaultErr, rec.Publish, rec.Lost, t))
 				}
 			}
 		}
@@ -431,10 +491,16 @@ func c05RunFn(s c05FnScn) (c05SeqObs, []Mon) {
 				mon("C05:system-type-in-claim-condition-types", fmt.Sprintf("reconcile %d: status.claimConditionTypes lists the system type %q", i, t))
 			}
 		}
-		if fatal && rec.Lost == "" {
-			// conditions returned before the failure (a runner error drops them all)
+		// (a late failure's status update may not go through: the XR held by the reconciler is outdated
+		// once the reference apply changed it; the clause is about what a status update stores)
+		if (fatal && rec.Lost == "") || (late && so.Wrote) {
+			// conditions returned before the failure (a runner error drops them all, and so does every
+			// failure of Compose after the pipeline: it returns an empty result)
 			fnLast := map[string]c05FnCond{}
 			for _, stp := range rec.Steps {
+				if late {
+					break
+				}
 				if stp.Err {
 					fnLast = map[string]c05FnCond{}
 					break
@@ -484,7 +550,11 @@ func c05RunFn(s c05FnScn) (c05SeqObs, []Mon) {
 
 func c05FnCls(s c05FnScn) string {
 	steps, fatal, inval, forge, pub, lost := 0, 0, 0, 0, 0, 0
+	fault := "-"
 	for _, r := range s.Recs {
+		if r.Fault != "" {
+			fault = r.Fault + "=" + r.FaultErr
+		}
 		if len(r.Steps) > steps {
 			steps = len(r.Steps)
 		}
@@ -508,5 +578,5 @@ func c05FnCls(s c05FnScn) string {
 			lost++
 		}
 	}
-	return fmt.Sprintf("fn/xrs=%d/recs=%d/maxsteps=%d/fatal=%d/rejected=%d/instatus=%d/publishErr=%d/lost=%d", len(s.XRs), len(s.Recs), steps, fatal, min(inval, 3), forge, pub, lost)
+	return fmt.Sprintf("fn/xrs=%d/recs=%d/maxsteps=%d/fatal=%d/rejected=%d/instatus=%d/publishErr=%d/lost=%d/fault=%s", len(s.XRs), len(s.Recs), steps, fatal, min(inval, 3), forge, pub, lost, fault)
 }
